@@ -19,52 +19,66 @@ def skipWs : Str → Str
 /-- after the opening quote: the string's content and the rest -/
 def readString : Str → Str → Option (Str × Str)
   | _, [] => none
-  | acc, '"' :: rest => some (acc.reverse, rest)
-  | acc, '\\' :: c :: rest =>
-    if c = '"' ∨ c = '\\' ∨ c = '/' then readString (c :: acc) rest
-    else if c = 'u' then readString ('' :: acc) rest
-    else if c = 'b' ∨ c = 'f' ∨ c = 'n' ∨ c = 'r' ∨ c = 't' then readString ('' :: acc) rest
-    else none
-  | acc, c :: rest => if c.toNat < 32 then none else readString (c :: acc) rest
+  | acc, c :: rest =>
+    if c = '"' then some (acc.reverse, rest)
+    else if c = '\\' then
+      (match rest with
+       | [] => none
+       | e :: rest' =>
+         if e = '"' ∨ e = '\\' ∨ e = '/' then readString (e :: acc) rest'
+         else if e = 'u' then readString ('\uE000' :: acc) rest'
+         else if e = 'b' ∨ e = 'f' ∨ e = 'n' ∨ e = 'r' ∨ e = 't' then readString ('\uE000' :: acc) rest'
+         else none)
+    else if c.toNat < 32 then none
+    else readString (c :: acc) rest
 
 def takeDigits : Str → Str × Str
   | c :: rest => if c.isDigit then let (d, r) := takeDigits rest; (c :: d, r) else ([], c :: rest)
   | [] => ([], [])
 
+/-- what follows the integer part of a number: `(is it an integer literal?, rest)` -/
+def numTail (s2 : Str) : Bool × Str :=
+  match s2 with
+  | '.' :: r =>
+    let (fs, r') := takeDigits r
+    if fs.isEmpty then (false, '.' :: r) else
+    (match r' with
+     | e :: r'' =>
+       if e = 'e' ∨ e = 'E' then
+         let r3 := match r'' with | '+' :: x => x | '-' :: x => x | x => x
+         let (es, r4) := takeDigits r3
+         if es.isEmpty then (false, r') else (false, r4)
+       else (false, r')
+     | [] => (false, []))
+  | e :: r =>
+    if e = 'e' ∨ e = 'E' then
+      let r3 := match r with | '+' :: x => x | '-' :: x => x | x => x
+      let (es, r4) := takeDigits r3
+      if es.isEmpty then (true, s2) else (false, r4)
+    else (true, s2)
+  | [] => (true, [])
+
 /-- a JSON number: `-? int frac? exp?`; returns the tree and the rest -/
 def readNumber (s : Str) : Option (Json × Str) :=
-  let (neg, s1) := match s with | '-' :: r => (true, r) | _ => (false, s)
-  let (ds, s2) := takeDigits s1
+  let neg : Bool := s.head? = some '-'
+  let s1 := if neg then s.tail else s
+  let ds := (takeDigits s1).1
+  let s2 := (takeDigits s1).2
   if ds.isEmpty then none
   else if ds.length > 1 ∧ ds.head? = some '0' then none       -- leading zeros are not JSON
   else
-    let (isInt, s3) : Bool × Str :=
-      match s2 with
-      | '.' :: r =>
-        let (fs, r') := takeDigits r
-        if fs.isEmpty then (false, '.' :: r) else
-        (match r' with
-         | e :: r'' =>
-           if e = 'e' ∨ e = 'E' then
-             let r3 := match r'' with | '+' :: x => x | '-' :: x => x | x => x
-             let (es, r4) := takeDigits r3
-             if es.isEmpty then (false, r') else (false, r4)
-           else (false, r')
-         | [] => (false, []))
-      | e :: r =>
-        if e = 'e' ∨ e = 'E' then
-          let r3 := match r with | '+' :: x => x | '-' :: x => x | x => x
-          let (es, r4) := takeDigits r3
-          if es.isEmpty then (true, s2) else (false, r4)
-        else (true, s2)
-      | [] => (true, [])
+    let isInt := (numTail s2).1
+    let s3 := (numTail s2).2
     -- a dangling '.' or 'e' is left in the rest and makes the document invalid
     let n := Nat.ofDigitChars 10 ds 0
     if !isInt then some (.float, s3)
     else if neg then
       (if n = 0 then some (.float, s3)     -- "-0" is a float for serde_json
-       else if n ≤ 9223372036854775808 then some (.num (-(n : Int)), s3) else some (.float, s3))
-    else (if n < 18446744073709551616 then some (.num n, s3) else some (.float, s3))
+       else if n ≤ 9223372036854775808 then some (.num (Int.negSucc (n - 1)), s3) else some (.float, s3))
+    else (if n < 18446744073709551616 then some (.num (Int.ofNat n), s3) else some (.float, s3))
+
+/-- may a JSON value start with this character? (the reader dispatches on it) -/
+def litAt (w : Str) (s : Str) : Option Str := if s.take w.length = w then some (s.drop w.length) else none
 
 mutual
   def readValue (fuel : Nat) (s : Str) : Option (Json × Str) :=
@@ -72,20 +86,22 @@ mutual
     | 0 => none
     | fuel + 1 =>
       match skipWs s with
-      | 'n' :: 'u' :: 'l' :: 'l' :: rest => some (.null, rest)
-      | 't' :: 'r' :: 'u' :: 'e' :: rest => some (.bool true, rest)
-      | 'f' :: 'a' :: 'l' :: 's' :: 'e' :: rest => some (.bool false, rest)
-      | '"' :: rest => (readString [] rest).map (fun (p : Str × Str) => (.str p.1, p.2))
-      | '[' :: rest =>
-        (match skipWs rest with
-         | ']' :: r => some (.arr [], r)
-         | _ => (readElems fuel rest []).map (fun (p : List Json × Str) => (.arr p.1, p.2)))
-      | '{' :: rest =>
-        (match skipWs rest with
-         | '}' :: r => some (.obj [], r)
-         | _ => (readMembers fuel rest []).map (fun (p : List (Str × Json) × Str) => (.obj p.1, p.2)))
-      | c :: rest => if c = '-' ∨ c.isDigit then readNumber (c :: rest) else none
       | [] => none
+      | c :: rest =>
+        if c = '"' then (readString [] rest).map (fun (p : Str × Str) => (.str p.1, p.2))
+        else if c = '[' then
+          (match skipWs rest with
+           | ']' :: r => some (.arr [], r)
+           | _ => (readElems fuel rest []).map (fun (p : List Json × Str) => (.arr p.1, p.2)))
+        else if c = '{' then
+          (match skipWs rest with
+           | '}' :: r => some (.obj [], r)
+           | _ => (readMembers fuel rest []).map (fun (p : List (Str × Json) × Str) => (.obj p.1, p.2)))
+        else if c = '-' ∨ c.isDigit then readNumber (c :: rest)
+        else if c = 'n' then (litAt (lit "ull") rest).map (fun r => (.null, r))
+        else if c = 't' then (litAt (lit "rue") rest).map (fun r => (.bool true, r))
+        else if c = 'f' then (litAt (lit "alse") rest).map (fun r => (.bool false, r))
+        else none
   def readElems (fuel : Nat) (s : Str) (acc : List Json) : Option (List Json × Str) :=
     match fuel with
     | 0 => none
